@@ -326,6 +326,25 @@ def give_signing_identity(node, node_id, curve_name='p256', identity='own'):
     return key
 
 
+def pem_files(node_id, curve_name='p256', which=0):
+    ''' The fixture PKI as files, the way a deployment configures BPSec (sign_key_file, sign_cert_file, verify_ca_file).
+    :return: (directory to remove afterwards, dict of paths) '''
+    import json
+    import os
+    import tempfile
+    path = os.path.join(os.path.dirname(os.path.dirname(os.path.abspath(__file__))), 'fixtures', 'pki.json')
+    entry = json.load(open(path))['%s-%d' % (curve_name, which)]
+    if entry['node_id'] != node_id:
+        raise ValueError('fixture PKI names %s' % entry['node_id'])
+    tmpdir = tempfile.mkdtemp(prefix='verif-pki-')
+    paths = {}
+    for name, key in (('ca', 'ca'), ('cert', 'ee'), ('key', 'ee_key')):
+        paths[name] = os.path.join(tmpdir, name + '.pem')
+        with open(paths[name], 'w') as outfile:
+            outfile.write(entry[key])
+    return tmpdir, paths
+
+
 def trust(node, node_id, curve_name='p256', which=0):
     ''' The receiver trusts the CA number ``which`` (0 = the one that issued the source certificate). '''
     node.bpsec._ca_certs = [pki(node_id, curve_name, which)[0]]
